@@ -140,14 +140,17 @@ def visited (root : PNode) : List PNode := procedural root ++ [root]
 
 /-! ### well-formedness of node definitions (the obligation C09 puts on `definition/*.py`) -/
 
-/-- A node is well-formed for the procedure when flattening and event building agree on what it consumes. -/
+/-- A node is well-formed for the procedure when flattening pushes exactly what event building pops.
+    Each clause is necessary (`Tranp.C09.wf_necessary`). -/
 def WFNode (n : PNode) : Prop :=
-  -- a terminal node (never flattened) declares no expandable property (its event would pop results of siblings)
-  (n.terminal = true → n.props.isEmpty = true) ∧
+  -- a terminal node (never flattened) has no property that yields a node (its event would pop results of siblings);
+  -- properties that yield empty lists are harmless
+  (n.terminal = true → (n.props.flatMap PProp.nodes).isEmpty = true) ∧
   -- a node whose properties yield nothing also has nothing underneath (those results would never be popped)
   (n.terminal = false → (propExpand n.props).isEmpty = true → n.under.isEmpty = true) ∧
-  -- `prop_keys()` has no repeated key (the dict of `__prop_of_nodes` collapses it, `__make_event` pops it twice)
-  (n.props.map PProp.key).Nodup ∧
+  -- a key that `prop_keys()` repeats yields nothing (the dict of `__prop_of_nodes` flattens it once, `__make_event`
+  -- pops it once per repetition)
+  (∀ p ∈ n.props, (n.props.map PProp.key).count p.key > 1 → p.nodes.isEmpty = true) ∧
   -- the return annotation says `list[...]` exactly when the value is a list
   (∀ p ∈ n.props, p.annList = p.isMany)
 
@@ -160,9 +163,9 @@ instance (root : PNode) : Decidable (WF root) := by unfold WF; infer_instance
 
 /-- which clause of `WFNode` fails (driver / harness report) -/
 def wfViolations (n : PNode) : List String :=
-  (if n.terminal && !n.props.isEmpty then ["terminal-with-props"] else []) ++
+  (if n.terminal && !(n.props.flatMap PProp.nodes).isEmpty then ["terminal-with-props"] else []) ++
   (if !n.terminal && (propExpand n.props).isEmpty && !n.under.isEmpty then ["under-not-consumed"] else []) ++
-  (if decide (n.props.map PProp.key).Nodup then [] else ["duplicate-key"]) ++
+  (if n.props.all (fun p => (n.props.map PProp.key).count p.key ≤ 1 || p.nodes.isEmpty) then [] else ["duplicate-key"]) ++
   (if n.props.all (fun p => p.annList == p.isMany) then [] else ["annotation-shape"])
 
 /-! ### handlers -/
@@ -186,6 +189,11 @@ def Event.flat {R : Type} (ev : Event R) : List R := ev.flatMap (·.2.flat)
 def dictSet {R : Type} : Event R → Key → EvVal R → Event R
   | [], k, v => [(k, v)]
   | (k', v') :: rest, k, v => if k' = k then (k, v) :: rest else (k', v') :: dictSet rest k v
+
+/-- the keyword-argument dict built from per-property values in the order `__make_event` inserts them
+    (reversed `prop_keys()`; a repeated key keeps its first position and takes the later value) -/
+def refEvent {R : Type} (evs : Event R) : Event R :=
+  evs.reverse.foldl (fun acc kv => dictSet acc kv.1 kv.2) []
 
 /-- What a handler does, as far as the procedure can tell. -/
 inductive HProg (R : Type) where
@@ -237,18 +245,22 @@ def makeEventLoop (props : List PProp) : List PProp → List R → Event R → L
   | [], fr, acc => (fr, .ok acc)
   | q :: qs, fr, acc =>
     -- annotation and value are read through the key (`getattr(node.__class__, key)`, `getattr(node, key)`)
-    let p := (lookupProp props q.key).getD q
-    if p.annList then
-      match p with
-      | .one .. => (fr, .error .typeError)                             -- `len(node)` procedure.py:191
-      | .many _ _ ns =>
+    match (lookupProp props q.key).getD q with
+    | .one _ annList _ =>
+      if annList then (fr, .error .typeError)                          -- `len(node)` procedure.py:191
+      else
+        match fr with
+        | [] => ([], .error .logicStackEmpty)                           -- procedure.py:197-198
+        | x :: fr' => makeEventLoop props qs fr' (dictSet acc q.key (.one x))
+    | .many _ annList ns =>
+      if annList then
         match popN ns.length fr with
-        | (fr', none) => (fr', .error .logicStackEmpty)                -- procedure.py:197-198
+        | (fr', none) => (fr', .error .logicStackEmpty)
         | (fr', some xs) => makeEventLoop props qs fr' (dictSet acc q.key (.many xs.reverse))
-    else
-      match fr with
-      | [] => ([], .error .logicStackEmpty)
-      | x :: fr' => makeEventLoop props qs fr' (dictSet acc q.key (.one x))
+      else
+        match fr with
+        | [] => ([], .error .logicStackEmpty)
+        | x :: fr' => makeEventLoop props qs fr' (dictSet acc q.key (.one x))
 
 /-- `__make_event` (procedure.py:176-198) on the current frame. -/
 def makeEvent (n : PNode) (fr : List R) : List R × Except Err (Event R) :=
@@ -342,7 +354,7 @@ def denote (dn : PNode → Except Err R) (hs : Handlers R) : PNode → Except Er
     | .ok evs =>
       match hs.find cls with
       | none => .error .mustBeImplemented
-      | some h => denoteProg dn (h (.mk id cls terminal props under) evs.reverse)
+      | some h => denoteProg dn (h (.mk id cls terminal props under) (refEvent evs))
 def denoteList (dn : PNode → Except Err R) (hs : Handlers R) : List PNode → Except Err (List R)
   | [] => .ok []
   | c :: cs =>
@@ -379,7 +391,7 @@ def denoteF (hs : Handlers R) : Nat → PNode → Except Err R
 /-- the event a visited node's handler must receive (dict order = reversed `prop_keys()` order) -/
 def eventOf (dn : PNode → Except Err R) (hs : Handlers R) (n : PNode) : Except Err (Event R) :=
   match denoteProps dn hs n.props with
-  | .ok evs => .ok evs.reverse
+  | .ok evs => .ok (refEvent evs)
   | .error e => .error e
 
 end machine
